@@ -15,7 +15,7 @@ STR_FORMS = ["''", '""', "'a'", '"a\'b"', "'''tri'''", '"""a\nb"""', "r'\\n'", "
              "B'\\x00\\xff'", "u'u'", "'\\N{BULLET}'", "'\\x41\\u0041\\U00000041'", "'\\101\\7\\08'", "'\\777'", "b'\\400'", "'\\378\\0'", "'\\\n'", "'a' 'b'",
              "'a' \"b\" '''c'''", "b'a' b'b'", "'\\ud800'", "'\\U0001F600'", "'\\t\\r\\n\\a\\b\\f\\v\\\\\\'\\\"'",
              "f''", "f'{a}'", "f'{a!r:>{b}}'", "f'{a=}'", "f'{{}}'", "f'{a:{b}.{c}}'", "rf'{a}\\n'", "f'{(lambda: a)()}'",
-             "f'{a if b else c}'", "f\"{'nested'}\"", "f'{f\"{a}\"}'", "f'{a!s}{b!a}'", "'%s' % a", "'{}'.format(a)"]
+             "f'{a if b else c}'", "f\"{'nested'}\"", "f'{f\"{a}\"}'", "f'{a!s}{b!a}'", "'%s' % a", "'{}'.format(a)", "f\"a{b't'}\"", "f'{b\"x\"!r}'"]
 STR_CONCAT = ["'p'", '"q"', "u'u'", "U'V'", r"r'\d'", "R'r'", "f'{a}'", "F'{b!r}'", r"rf'{a}\n'", "fr'{c}'", "\'\'\'t\'\'\'",
               r"'\xe9'", r"u'€'", "f'{{x}}'", "''", "f''", r"'\N{BULLET}'", "f'{a:>{b}}'"]
 BYTES_CONCAT = ["b'p'", 'B"q"', r"br'\d'", "rb'r'", r"b'\xff'", "b''", "Rb'x'"]
@@ -154,6 +154,8 @@ class Syn:
             parts.append("k%d=%s" % (self.irange(0, 3), self.expr(d + 1)))
         if self.chance(0.15):
             parts.append("**" + self.expr(d + 1))
+        elif self.chance(0.1):
+            parts.append("**{%s.real: %s}" % (self.name(), self.expr(d + 1)))
         return ", ".join(parts)
 
     def patom(self, d):
@@ -407,7 +409,8 @@ class Syn:
     def classdef(self, ind, d):
         self.kinds.add("class")
         cname = self.fresh().upper()
-        bases = self.pick(["", "()", "(object)", "(Exception)", "(dict, metaclass=type)", "(*(), **{})"])
+        bases = self.pick(["", "()", "(object)", "(Exception)", "(dict, metaclass=type)", "(*(), **{})",
+                           "(metaclass=(%s := type))" % self.fresh(), "(object, metaclass=[type for %s in (1,)][0])" % self.fresh()])
         saved = (list(self.names), self.in_func, self.in_loop, self.is_async, self.is_gen)
         self.in_func, self.in_loop, self.is_async, self.is_gen = False, 0, False, False
         body = []
